@@ -15,7 +15,7 @@ open Scc.AxCut Scc.AxCut.Pos Scc.Backend Scc.Backend.Abs Scc.Backend.Sim Scc.Bac
 open Scc.Heap (HState InvS InvW)
 open Scc.Heap.Refine (HRef imgW fieldImg kindB FrLe Room)
 
-variable {mc : MonCfg} {α : Word → Word}
+variable {mc : MonCfg} {cw : Nat → Word} {τ : Nat → Nat → Word}
 
 /-! ## `store` of no field: the null pointer -/
 
@@ -26,12 +26,12 @@ theorem storeObj_nil (hs : HState) : Scc.Heap.storeObj hs [] = .ok (hs, 0) := by
 
 theorem store_x3_empty {la : String → Option Nat}
     {Γ : Ctx} {cfg cfg1 : Config} {hs : HState} {ι : Nat → Nat} {st : State}
-    (X : X3 mc α Γ cfg hs ι st) (hlt : Γ.length < 14)
+    (X : X3 mc cw τ Γ cfg hs ι st) (hlt : Γ.length < 14)
     (hlow : ∀ t, t < 2 * Γ.length → cfg1.temps.get t = cfg.temps.get t)
     (hheap : cfg1.heap = cfg.heap) (hnx : cfg1.next = cfg.next) (kk : Nat) :
     ∃ code kk', (store [] Γ).run kk = .ok (code, kk') ∧ MemFree code ∧ Code.LAB "cleanup" ∉ code ∧
       ∃ st', execFwd mc la code st = .ok (st', .fall) ∧
-        X3R mc α Γ cfg1 (roots Γ cfg.temps) hs ι st' ∧
+        X3R mc cw τ Γ cfg1 (roots Γ cfg.temps) hs ι st' ∧
         rv st' (2 * Γ.length) = some 0 := by
   obtain ⟨code, kk', hrun, hle, hlabs, st', hx, B', HR', ⟨w, hw, ew⟩, FT⟩ :=
     store_contract (la := la) X.bnd X.hrel (toStore := []) (rem := Γ) (fs := [])
@@ -54,16 +54,143 @@ theorem store_x3_empty {la : String → Option Nat}
     exact X.href
 
 /-- the tag as the RV64 machine holds it -/
-theorem trW_prd_tag (pos : Nat) :
-    BitVec.ofInt 64 (rvBackend.jumpLength pos) = trW α .prd (BitVec.ofInt 64 (pos : Int)) := by
+theorem trW_prd_tag (pos : Nat) (m : Word) :
+    BitVec.ofInt 64 (rvBackend.jumpLength pos) = trW .prd (BitVec.ofInt 64 (pos : Int)) m := by
   show BitVec.ofInt 64 ((4 : Int) * (pos : Int)) = BitVec.ofInt 64 pos * 4#64
   rw [BitVec.ofInt_mul, BitVec.mul_comm]
   rfl
+
+/-- the closure words of the heap fields after `let` / `create`: the new object (if there is one) gets
+those of the stored positions -/
+def letTau (τ : Nat → Nat → Word) (next : Nat) (cw : Nat → Word) (N nargs : Nat) : Nat → Nat → Word :=
+  if nargs = 0 then τ else storeTau τ next cw N
 
 section Let3
 
 variable {pr : RV.Program} {ks : List Code} (L : Loaded pr ks) (hnd : (labs ks).Nodup)
   (hheap : mc.heap = false)
+
+include L hnd hheap in
+/-- the `store` of `let` / `create` on both machines: the last `nargs` variables go to a fresh object (or
+nothing is allocated), the new variable `b` at position `N` references it -/
+theorem store_mid_x3 {P : Abs.Program} {hooks : Bool} {prog : AxCut.Prog} {Γ : Ctx} {ρ : List Value} {s : Stmt}
+    {cfg cA : Config} {N nargs : Nat} {x : Ident} {chi : Chi} {ty : Ty}
+    (R : RelX P hooks prog ⟨Γ, ρ, s⟩ cfg) (hN : Γ.length - nargs = N) (hk : nargs ≤ Γ.length)
+    (hchi : chi ≠ .ext) (hN14 : N < 14)
+    (hcap : 2 * (N + 1) + 2 < Mock.T_TEMP) (hnext : cfg.next < 2 ^ 64)
+    (hstore : P.code[cfg.pc]? = some (.store (Mock.kindsOf (Γ.drop N)) N))
+    (hsA : Abs.step P cfg = .next cA)
+    {hs : HState} {ι : Nat → Nat} {st0 : State} (X0 : X3 mc cw τ Γ cfg hs ι st0)
+    {k kst : Nat} {cst more : List Code}
+    (hstX : (store (Γ.drop N) (Γ.take N)).run k = .ok (cst, kst))
+    (hat1 : KAt ks st0.pc (cst ++ more))
+    (hroom : Room hs (64 * nargs + 64)) :
+    ∃ st1 hs' ι', Reach pr mc st0 st1 ∧ KAt ks st1.pc more ∧
+      X3R mc cw (letTau τ cfg.next cw N nargs) (Γ.take N) cA
+        (roots (Γ.take N) cA.temps ++ rootOf cA.temps ⟨x, chi, ty⟩ N) hs' ι' st1 ∧
+      (∀ r, cA.temps.get (2 * N) = some r → rv st1 (2 * N) = some (imgWord ι' r)) ∧
+      cA.pc = cfg.pc + 1 ∧ cA.out = cfg.out ∧ FrLe hs hs' (64 * nargs) := by
+  have hNle : N ≤ Γ.length := by omega
+  have hlenρ : (ρ.drop N).length = (Γ.drop N).length := by
+    have := R.len; simp only at this; simp [this]
+  obtain ⟨fields, hf, hrep, hch⟩ := readFields_ok2 (Γ.drop N) (ρ.drop N) N (R.vals.slice N) hlenρ
+  have hlenTake : (Γ.take N).length = N := by simp; omega
+  cases hΔ : Γ.drop N with
+  | nil =>
+    have hNΓ : N = Γ.length := by
+      have := congrArg List.length hΔ
+      simp at this; omega
+    rw [hΔ] at hstore hstX
+    have hT : Γ.take N = Γ := by rw [hNΓ]; exact List.take_length
+    rw [hT] at hstX ⊢
+    have hτ0 : letTau τ cfg.next cw N nargs = τ := by
+      unfold letTau; rw [if_pos (by omega)]
+    rw [hτ0]
+    have hA := step_store_empty P cfg N hstore
+    rw [hsA] at hA
+    injection hA with hA
+    have hlow : ∀ t, t < 2 * Γ.length → cA.temps.get t = cfg.temps.get t := by
+      intro t ht
+      rw [hA]
+      simp only
+      rw [get_set_other _ _ (by omega), get_clobberTemp _ (by unfold Mock.T_TEMP; have := X0.cap; omega)]
+    obtain ⟨code, kk', hrunS, hfree, hncl, st1, hx, X1, hv1⟩ :=
+      store_x3_empty (la := pr.labelAddr) X0 (by omega) hlow (by rw [hA]) (by rw [hA]) k
+    have hcode : code = cst ∧ kk' = kst := by
+      have : (store [] Γ).run k = .ok (cst, kst) := hstX
+      rw [hrunS] at this
+      injection this with this
+      injection this with e1 e2
+      exact ⟨e1, e2⟩
+    obtain ⟨rfl, rfl⟩ := hcode
+    obtain ⟨pc1, steps1, hn1, hat2⟩ := exec_block L hnd hheap hat1 hfree hncl hx
+    have h2n : cA.temps.get (2 * N) = some 0 := by
+      rw [hA]; simp only; exact get_set_same _ _ _
+    refine ⟨setPS st1 pc1 steps1, hs, ι, hn1, hat2, ?_, ?_, by rw [hA], by rw [hA], by
+      have : nargs = 0 := by omega
+      rw [this]; exact Scc.Heap.Refine.FrLe.refl hs⟩
+    · have hr : rootOf cA.temps ⟨x, chi, ty⟩ N = [] := by
+        unfold rootOf; rw [h2n]; simp
+      rw [hr, List.append_nil, roots_congr _ _ _ (fun i hi => hlow (2 * i) (by omega))]
+      exact X3R.setPS X1 _ _
+    · intro r hr
+      rw [h2n] at hr
+      injection hr with hr
+      subst hr
+      rw [rv_setPS, hNΓ, hv1]
+      simp [imgWord]
+  | cons b Δ =>
+    rw [hΔ] at hstore
+    have hfc : readFields cfg.temps (b.chi :: Mock.kindsOf Δ) N = some fields := by
+      rw [hΔ] at hf; exact hf
+    have hA := step_store_cons P cfg b.chi (Mock.kindsOf Δ) N fields hstore hfc
+    rw [hsA] at hA
+    injection hA with hA
+    have hNlt : N < Γ.length := by
+      have := congrArg List.length hΔ
+      simp at this; omega
+    have hτ0 : letTau τ cfg.next cw N nargs = storeTau τ cfg.next cw N := by
+      unfold letTau; rw [if_neg (by omega)]
+    rw [hτ0]
+    have hlow : ∀ t, t < 2 * N → cA.temps.get t = cfg.temps.get t := by
+      intro t ht
+      rw [hA]
+      simp only
+      rw [get_set_other _ _ (by omega), get_clearPositions, if_neg (by omega),
+        get_clobberTemp _ (by unfold Mock.T_TEMP; have := X0.cap; omega)]
+    obtain ⟨code, kk', hrunS, hfree, hncl, st1, hs', p, hx, X1, hv1, hp0, hplt, hfrS⟩ :=
+      store_x3 (la := pr.labelAddr) X0 hNlt hf (hch 0) hnext hlow (by rw [hA]) (by rw [hA])
+        (by rw [show Γ.length - N = nargs by omega]; exact hroom) k
+    have hcode : code = cst ∧ kk' = kst := by
+      have : (store (Γ.drop N) (Γ.take N)).run k = .ok (cst, kst) := hstX
+      rw [hrunS] at this
+      injection this with this
+      injection this with e1 e2
+      exact ⟨e1, e2⟩
+    obtain ⟨rfl, rfl⟩ := hcode
+    obtain ⟨pc1, steps1, hn1, hat2⟩ := exec_block L hnd hheap hat1 hfree hncl hx
+    have h2n : cA.temps.get (2 * N) = some (BitVec.ofNat 64 cfg.next) := by
+      rw [hA]; simp only; exact get_set_same _ _ _
+    have hr0 : BitVec.ofNat 64 cfg.next ≠ 0 := ofNat_ne_zero X0.href.abs.pos hnext
+    have hrt : (BitVec.ofNat 64 cfg.next).toNat = cfg.next := ofNat_toNat_lt hnext
+    refine ⟨setPS st1 pc1 steps1, hs', (fun i => if i = cfg.next then p else ι i), hn1, hat2, ?_, ?_,
+      by rw [hA], by rw [hA], by rw [show Γ.length - N = nargs by omega] at hfrS; exact hfrS⟩
+    · have hr : rootOf cA.temps ⟨x, chi, ty⟩ N = [cfg.next] := by
+        unfold rootOf
+        rw [h2n]
+        have h1 : (chi != Chi.ext) = true := (Scc.Backend.Sim2.chi_bne_ext _).mpr hchi
+        have h2 : (BitVec.ofNat 64 cfg.next != 0) = true := by rw [bne_iff_ne]; exact hr0
+        simp only [h1, h2, if_true, hrt]
+      rw [hr, roots_congr _ _ _ (fun i hi => hlow (2 * i) (by rw [hlenTake] at hi; omega))]
+      exact X3R.setPS X1 _ _
+    · intro r hr
+      rw [h2n] at hr
+      injection hr with hr
+      subst hr
+      rw [rv_setPS, hv1]
+      unfold imgWord
+      rw [if_neg hr0, hrt]
+      simp
 
 include L hnd hheap in
 /-- THREE-WAY SIMULATION OF `let` -/
@@ -75,7 +202,7 @@ theorem let_x3 {P : Abs.Program} {hooks : Bool} {prog : AxCut.Prog} {Γ : Ctx} {
     (hpos : Pos.tagPosition prog.types ty tag = .ok pos)
     (hcap : 2 * (Γ.length - args.length + 1) + 2 < Mock.T_TEMP)
     (hnext : cfg.next < 2 ^ 64)
-    {hs : HState} {ι : Nat → Nat} {st : State} (X : X3 mc α Γ cfg hs ι st)
+    {hs : HState} {ι : Nat → Nat} {st : State} (X : X3 mc cw τ Γ cfg hs ι st)
     {k k' : Nat} {items : List Code}
     (hrun : (codeStatementR rvBackend hooks natRen prog.types (.letS x ty tag args next fv) Γ).run k =
       .ok (items, k'))
@@ -85,7 +212,8 @@ theorem let_x3 {P : Abs.Program} {hooks : Bool} {prog : AxCut.Prog} {Γ : Ctx} {
       cfg'.out = cfg.out ∧ cfg'.next ≤ cfg.next + 1 ∧
       RelX P hooks prog ⟨Γ.take (Γ.length - args.length) ++ [⟨x, .prd, ty⟩],
         ρ.take (Γ.length - args.length) ++ [.obj pos (ρ.drop (Γ.length - args.length))], next⟩ cfg' ∧
-      X3 mc α (Γ.take (Γ.length - args.length) ++ [⟨x, .prd, ty⟩]) cfg' hs' ι' st' ∧
+      X3 mc cw (letTau τ cfg.next cw (Γ.length - args.length) args.length)
+        (Γ.take (Γ.length - args.length) ++ [⟨x, .prd, ty⟩]) cfg' hs' ι' st' ∧
       ∃ k1 k1' items', (codeStatementR rvBackend hooks natRen prog.types next
           (Γ.take (Γ.length - args.length) ++ [⟨x, .prd, ty⟩])).run k1 = .ok (items', k1') ∧
         KAt ks st'.pc items' := by
@@ -147,7 +275,7 @@ theorem let_x3 {P : Abs.Program} {hooks : Bool} {prog : AxCut.Prog} {Γ : Ctx} {
     simpa [List.append_assoc] using hat
   -- the comments
   obtain ⟨pc0, k0, hk0, hat1⟩ := pass_comments L hnd hheap hatA hc0c
-  have X0 : X3 mc α Γ cfg hs ι (setPS st pc0 k0) := X3R.setPS X _ _
+  have X0 : X3 mc cw τ Γ cfg hs ι (setPS st pc0 k0) := X3R.setPS X _ _
   replace hat1 : KAt ks (setPS st pc0 k0).pc (cst ++ ([Code.COMMENT "#load tag"] ++
       ([Code.LI (posTemp (2 * N + 1)) (rvBackend.jumpLength pos)] ++ c3X))) := hat1
   generalize setPS st pc0 k0 = st0 at hk0 X0 hat1
@@ -157,122 +285,27 @@ theorem let_x3 {P : Abs.Program} {hooks : Bool} {prog : AxCut.Prog} {Γ : Ctx} {
   obtain ⟨fields, hf, hrep, hch⟩ := readFields_ok2 (Γ.drop N) (ρ.drop N) N (R.vals.slice N) hlenρ
   have hlenTake : (Γ.take N).length = N := hn
   -- the store on both machines
-  have mid : ∃ st1 hs' ι', Reach pr mc st0 st1 ∧
-      KAt ks st1.pc ([Code.COMMENT "#load tag"] ++
-        ([Code.LI (posTemp (2 * N + 1)) (rvBackend.jumpLength pos)] ++ c3X)) ∧
-      X3R mc α (Γ.take N) cA (roots (Γ.take N) cA.temps ++ rootOf cA.temps ⟨x, .prd, ty⟩ N) hs' ι' st1 ∧
-      (∀ r, cA.temps.get (2 * N) = some r → rv st1 (2 * N) = some (imgWord ι' r)) ∧
-      cA.pc = cfg.pc + 1 ∧ FrLe hs hs' (64 * args.length) := by
-    cases hΔ : Γ.drop N with
-    | nil =>
-      have hNΓ : N = Γ.length := by
-        have := congrArg List.length hΔ
-        simp at this; omega
-      rw [hΔ] at hstore hstX
-      have hT : Γ.take N = Γ := by rw [hNΓ]; exact List.take_length
-      rw [hT] at hstX ⊢
-      have hA := step_store_empty P cfg N hstore
-      rw [hsA] at hA
-      injection hA with hA
-      have hlow : ∀ t, t < 2 * Γ.length → cA.temps.get t = cfg.temps.get t := by
-        intro t ht
-        rw [hA]
-        simp only
-        rw [get_set_other _ _ (by omega), get_clobberTemp _ (by unfold Mock.T_TEMP; have := X.cap; omega)]
-      obtain ⟨code, kk', hrunS, hfree, hncl, st1, hx, X1, hv1⟩ :=
-        store_x3_empty (la := pr.labelAddr) X0 (by omega) hlow (by rw [hA]) (by rw [hA]) k
-      have hcode : code = cst ∧ kk' = kst := by
-        have : (store [] Γ).run k = .ok (cst, kst) := hstX
-        rw [hrunS] at this
-        injection this with this
-        injection this with e1 e2
-        exact ⟨e1, e2⟩
-      obtain ⟨rfl, rfl⟩ := hcode
-      obtain ⟨pc1, steps1, hn1, hat2⟩ := exec_block L hnd hheap hat1 hfree hncl hx
-      have h2n : cA.temps.get (2 * N) = some 0 := by
-        rw [hA]; simp only; exact get_set_same _ _ _
-      refine ⟨setPS st1 pc1 steps1, hs, ι, hn1, hat2, ?_, ?_, by rw [hA], by
-        have : args.length = 0 := by omega
-        rw [this]; exact Scc.Heap.Refine.FrLe.refl hs⟩
-      · have hr : rootOf cA.temps ⟨x, .prd, ty⟩ N = [] := by
-          unfold rootOf; rw [h2n]; simp
-        rw [hr, List.append_nil, roots_congr _ _ _ (fun i hi => hlow (2 * i) (by omega))]
-        exact X3R.setPS X1 _ _
-      · intro r hr
-        rw [h2n] at hr
-        injection hr with hr
-        subst hr
-        rw [rv_setPS, hNΓ, hv1]
-        simp [imgWord]
-    | cons b Δ =>
-      rw [hΔ] at hstore
-      have hfc : readFields cfg.temps (b.chi :: Mock.kindsOf Δ) N = some fields := by
-        rw [hΔ] at hf; exact hf
-      have hA := step_store_cons P cfg b.chi (Mock.kindsOf Δ) N fields hstore hfc
-      rw [hsA] at hA
-      injection hA with hA
-      have hNlt : N < Γ.length := by
-        have := congrArg List.length hΔ
-        simp at this; omega
-      have hlow : ∀ t, t < 2 * N → cA.temps.get t = cfg.temps.get t := by
-        intro t ht
-        rw [hA]
-        simp only
-        rw [get_set_other _ _ (by omega), get_clearPositions, if_neg (by omega),
-          get_clobberTemp _ (by unfold Mock.T_TEMP; have := X.cap; omega)]
-      obtain ⟨code, kk', hrunS, hfree, hncl, st1, hs', p, hx, X1, hv1, hp0, hplt, hfrS⟩ :=
-        store_x3 (la := pr.labelAddr) X0 hNlt hf (hch 0) hnext hlow (by rw [hA]) (by rw [hA])
-          (by rw [show Γ.length - N = args.length by omega]; exact hroom) k
-      have hcode : code = cst ∧ kk' = kst := by
-        have : (store (Γ.drop N) (Γ.take N)).run k = .ok (cst, kst) := hstX
-        rw [hrunS] at this
-        injection this with this
-        injection this with e1 e2
-        exact ⟨e1, e2⟩
-      obtain ⟨rfl, rfl⟩ := hcode
-      obtain ⟨pc1, steps1, hn1, hat2⟩ := exec_block L hnd hheap hat1 hfree hncl hx
-      have h2n : cA.temps.get (2 * N) = some (BitVec.ofNat 64 cfg.next) := by
-        rw [hA]; simp only; exact get_set_same _ _ _
-      have hr0 : BitVec.ofNat 64 cfg.next ≠ 0 := ofNat_ne_zero X.href.abs.pos hnext
-      have hrt : (BitVec.ofNat 64 cfg.next).toNat = cfg.next := ofNat_toNat_lt hnext
-      refine ⟨setPS st1 pc1 steps1, hs', (fun i => if i = cfg.next then p else ι i), hn1, hat2, ?_, ?_,
-        by rw [hA], by rw [show Γ.length - N = args.length by omega] at hfrS; exact hfrS⟩
-      · have hr : rootOf cA.temps ⟨x, .prd, ty⟩ N = [cfg.next] := by
-          unfold rootOf
-          rw [h2n]
-          have h1 : (Chi.prd != Chi.ext) = true := by decide
-          have h2 : (BitVec.ofNat 64 cfg.next != 0) = true := by rw [bne_iff_ne]; exact hr0
-          simp only [h1, h2, if_true, hrt]
-        rw [hr, roots_congr _ _ _ (fun i hi => hlow (2 * i) (by rw [hlenTake] at hi; omega))]
-        exact X3R.setPS X1 _ _
-      · intro r hr
-        rw [h2n] at hr
-        injection hr with hr
-        subst hr
-        rw [rv_setPS, hv1]
-        unfold imgWord
-        rw [if_neg hr0, hrt]
-        simp
-  obtain ⟨st1, hs', ι', hn1, hat2, X1, hptr1, hpcA, hfrM⟩ := mid
+  obtain ⟨st1, hs', ι', hn1, hat2, X1, hptr1, hpcA, _, hfrM⟩ :=
+    store_mid_x3 L hnd hheap (x := x) (chi := .prd) (ty := ty) R hN hk (by decide) (by omega) hcap hnext hstore hsA X0 hstX hat1 hroom
   -- the tag
   have hB := step_li P cA (2 * N + 1) pos (by rw [hpcA]; exact hli) (by unfold Mock.T_TEMP; omega)
   rw [hsB] at hB
   injection hB with hB
   obtain ⟨pc2, k2, hk2, hat3'⟩ := pass_comments L hnd hheap hat2 (fun y hy => by simp at hy; exact ⟨_, hy⟩)
-  have X1' : X3R mc α (Γ.take N) cA (roots (Γ.take N) cA.temps ++ rootOf cA.temps ⟨x, .prd, ty⟩ N) hs' ι'
+  have X1' : X3R mc cw (letTau τ cfg.next cw N args.length) (Γ.take N) cA (roots (Γ.take N) cA.temps ++ rootOf cA.temps ⟨x, .prd, ty⟩ N) hs' ι'
       (setPS st1 pc2 k2) := X3R.setPS X1 _ _
   obtain ⟨pc3, k3', hk3, hat4⟩ := exec_block L hnd hheap (s := setPS st1 pc2 k2) hat3'
     (fun c hc => by simp at hc; subst hc; rfl) (by simp)
     (execFwd_single (show exec mc pr.labelAddr 0 (Code.LI (posTemp (2 * N + 1)) (rvBackend.jumpLength pos)) _ =
       .ok (_, .fall) from rfl))
   have K := keep_writeReg X1'.bnd.wf (posTemp (2 * N + 1)) (imm (rvBackend.jumpLength pos))
-  have X2 : X3R mc α (Γ.take N ++ [⟨x, .prd, ty⟩]) cB
+  have X2 : X3R mc cw (letTau τ cfg.next cw N args.length) (Γ.take N ++ [⟨x, .prd, ty⟩]) cB
       (roots (Γ.take N) cA.temps ++ rootOf cA.temps ⟨x, .prd, ty⟩ N) hs' ι'
       ((setPS st1 pc2 k2).writeReg (posTemp (2 * N + 1)) (imm (rvBackend.jumpLength pos))) := by
     refine X3R.snoc X1' (by rw [hlenTake]; omega) (by rw [hlenTake]; exact K) (a := BitVec.ofInt 64 pos)
       (by
         rw [hlenTake, rv_writeReg_same X1'.bnd.wf (by omega)]
-        exact congrArg some (trW_prd_tag pos)) (by rw [hB, hlenTake])
+        exact congrArg some (trW_prd_tag pos _)) (by rw [hB, hlenTake])
       (by rw [hB]) (by rw [hB]) ?_
     intro _ r hr
     rw [hlenTake] at hr ⊢
@@ -292,7 +325,7 @@ theorem let_x3 {P : Abs.Program} {hooks : Bool} {prog : AxCut.Prog} {Γ : Ctx} {
       rw [hgetB (2 * N) (by omega) (by omega)]
   refine ⟨cB, _, hs', ι', ⟨cA, hsA, cB, hsB, rfl⟩, hk0.trans (hn1.trans (hk2.trans hk3)), hfrM,
     hout', hnx', R', ?_, kst, k6X, c3X, h3X, hat4⟩
-  show X3R mc α _ cB (roots _ cB.temps) hs' ι' _
+  show X3R mc cw _ _ cB (roots _ cB.temps) hs' ι' _
   rw [hrootsB]
   exact X3R.setPS X2 _ _
 
